@@ -3,6 +3,8 @@ random add / modify / remove sequences on vehicles, requests, stations and bases
 SimulationState; all eight index maps compared with the Lean `Coll` model after every operation."""
 from __future__ import annotations
 
+from . import framework as fw  # noqa: E402
+
 import logging
 import random
 from typing import Any, Dict, List
@@ -141,5 +143,5 @@ def worker(args) -> Dict[str, Any]:
                 findings.append({"id": r["id"], "kind": "diff", "text": o["diff"][:8], "record": r})
             if o.get("mon"):
                 findings.append({"id": r["id"], "kind": "mon", "text": o["mon"][:8], "record": r})
-    return {"n": len(recs), "ops": n_ops, "findings": findings[:20], "n_findings": len(findings), "shapes": sorted(shapes),
+    return {"n": len(recs), "ops": n_ops, "findings": fw.pick(findings, 20), "n_findings": len(findings), "shapes": sorted(shapes),
             "sample": {"kind": recs[0]["kind"], "steps": [{k: s[k] for k in s if k != "after"} for s in recs[0]["steps"][:12]]}}
